@@ -35,6 +35,12 @@ Vocabulary (defined in `Lemmas/C04*.lean`):
 * `C04.matF`, `C04.repSeq` — the matrix of `insert_knot` (with its modular writes) as a function, and
   the knot sequence after the periodic ghost repair.
 
+Model notes (after the repair of periodic `insert_knot`): the insertion index of a periodic basis is
+`Basis.insertMu = min(bisect_right, len(knots) - p)` (the end of the domain is not passed, so `x = end`
+works for every seam multiplicity); a periodic basis with `n < p + k` functions is refined through its
+`R`-fold cover (`Basis.insertKnot`, cover branch; `R = ⌈(p+k)/n⌉`).  The periodic theorems below cover
+`n ≥ p + k` (the direct algorithm); the cover branch is validated by the correspondence run and oracle.
+
 Overview: open directions — `C04_open`, `C04_open_interior`, `C04_sequence`, `C04_object`, `C04_curve`,
 `C04_refine`, `C04_graded`, `C04_rejects`; periodic directions (guard `n ≥ p+k`, value ≠ end) —
 `C04_periodic_boehm` (specification level), `C04_periodic_partial`, `C04_periodic_sequence_partial`,
@@ -55,8 +61,8 @@ variable {K : Type} [Field K] [LinearOrder K] [IsStrictOrderedRing K] [FloorRing
 /-- A value outside `[start, end]` of a non-periodic basis is rejected with `ValueError`. -/
 theorem C04_rejects (b : Basis K) (x : K) (hper : b.periodic < 0)
     (hx : x < b.start ∨ b.stop < x) : b.insertKnot x = .error .value := by
-  rw [insertKnot_eq]
-  unfold wrapX
+  unfold Basis.insertKnot Basis.insertWrap
+  simp only []
   rw [if_neg (not_le.2 hper), if_pos hx]
 
 /-- **Knot insertion into an open (non-periodic) basis.**  For a valid non-periodic basis, a value
@@ -288,8 +294,9 @@ theorem C04_periodic_boehm (τ : ℕ → K) (x T : K) (n p k mu : ℕ) (s : Side
 
 /-- **Periodic bases under the guard `n ≥ p + k`.**
 For a valid periodic basis (continuity `k`, `n` functions, order `p`) with `n ≥ p + k` and ANY real
-`x0` whose wrapped image `x = wrapVal b x0` (`x0` itself inside `[start,end]`, else
-`(x0-start) % (end-start) + start`) is not the end of the domain:
+`x0` (wrapped image `x = wrapVal b x0`: `x0` itself inside `[start,end]`, else
+`(x0-start) % (end-start) + start`; `x = end` included — the insertion index is
+`insertMu = min(bisect_right, len(knots) - p)`):
 `insert_knot(x0)` = `insert_knot(x)` succeeds; the repaired knot vector is a valid periodic knot vector
 (sorted; the ghost knots repeat the interior ones with the unchanged period over `n+1` functions:
 "periodic images consistent"), with the same start and end, one more knot and function; away from the
@@ -299,42 +306,39 @@ unchanged**: for every coefficient vector `c`, side, derivative order and parame
 point/side of `C01_value_deriv_periodic`), the periodic spline `wsum` (the sum over all wrapped images
 that `BSplineBasis.evaluate` computes) with coefficients `C·c` on the new basis equals the one with `c`
 on the old basis.
-`_partial` — outside the theorem: (i) `x = end` (the code raises `IndexError` there when the seam
-multiplicity `p-1-k ≥ 2`); (ii) `n < p + k`, where the two repair loops read knots they have already
-overwritten and the real code changes the geometry.  Both are defects of the pinned code found by the
-oracle of this property (known findings). -/
+`_partial` — outside the theorem: `n < p + k`, where `insert_knot` refines the `R`-fold cover of the
+basis instead (`Basis.insertKnot`, cover branch); that branch is covered by the correspondence run and
+the oracle, not by a theorem yet. -/
 theorem C04_periodic_partial (b : Basis K) (hv : b.Valid) (k : ℕ) (hk : b.periodic = (k : Int))
-    (hguard : b.order + k ≤ b.numFunctions) (x0 : K) (hne : wrapVal b x0 ≠ b.stop) :
-    b.start ≤ wrapVal b x0 ∧ wrapVal b x0 < b.stop ∧
+    (hguard : b.order + k ≤ b.numFunctions) (x0 : K) :
+    b.start ≤ wrapVal b x0 ∧ wrapVal b x0 ≤ b.stop ∧
     b.insertKnot x0 = b.insertKnot (wrapVal b x0) ∧
     ∃ b' C, b.insertKnot x0 = .ok (b', C) ∧ b'.Valid ∧ b'.order = b.order ∧
       b'.periodic = b.periodic ∧ b'.knots.size = b.knots.size + 1 ∧
       b'.numFunctions = b.numFunctions + 1 ∧ b'.start = b.start ∧ b'.stop = b.stop ∧
       (∀ j, b.order + k < j → j < b.numFunctions + 1 →
-        b'.kn j = insertSeq b.kn (b.bisectR (wrapVal b x0)) (wrapVal b x0) j) ∧
+        b'.kn j = insertSeq b.kn (b.insertMu (wrapVal b x0)) (wrapVal b x0) j) ∧
       Shape (b.numFunctions + 1) b.numFunctions C ∧
       ∀ (c : ℕ → K) (s : Side) (d : ℕ) (t : K), s.mem b.start b.stop t →
         wsum s b'.kn (b.order - 1) (b.nAll + 1) (b.numFunctions + 1) (mulVec C b.numFunctions c) d t
           = wsum s b.kn (b.order - 1) b.nAll b.numFunctions c d t := by
   obtain ⟨h1, h2, _⟩ := wrapVal_mem b hv.start_lt_stop x0
-  have hlt : wrapVal b x0 < b.stop := lt_of_le_of_ne h2 hne
   have hw := insertKnot_wrap b (by rw [hk]; omega) hv.start_lt_stop x0
-  refine ⟨h1, hlt, hw, ?_⟩
+  refine ⟨h1, h2, hw, ?_⟩
   rw [hw]
-  exact insertKnot_periodic_geom b hv k hk hguard (wrapVal b x0) ⟨h1, hlt⟩
+  exact insertKnot_periodic_geom_le b hv k hk hguard (wrapVal b x0) ⟨h1, h2⟩
 
 /-- **Sequences of periodic insertions** (guard `n ≥ p+k` for the first basis; it then holds for
-all later ones): any list of reals whose wrapped images avoid the domain end: every step succeeds and
+all later ones): any list of reals (the domain end included): every step succeeds and
 the final basis `PerRefines` the first (valid periodic, same order/continuity/domain, `xs.length` more
 knots and functions, accumulated matrix maps coefficients to coefficients of the same periodic
 function on the domain, all derivatives, both sides).  `_partial`: same exclusions as
 `C04_periodic_partial`. -/
 theorem C04_periodic_sequence_partial (b : Basis K) (hv : b.Valid) (k : ℕ)
-    (hk : b.periodic = (k : Int)) (hguard : b.order + k ≤ b.numFunctions) (xs : List K)
-    (hxs : ∀ x ∈ xs, wrapVal b x ≠ b.stop) :
+    (hk : b.periodic = (k : Int)) (hguard : b.order + k ≤ b.numFunctions) (xs : List K) :
     ∃ b' C, insertMany b (Mat.identity b.numFunctions) xs = .ok (b', C) ∧
       PerRefines b b' C xs.length :=
-  insertMany_periodic b hv k hk hguard xs hxs
+  insertMany_periodic_any b hv k hk hguard xs
 
 /-- **Objects, periodic direction** (`Obj.insertKnots` along a valid periodic direction with
 `n ≥ p+k` and matching control-net length): success; refined periodic basis; other bases, `rational`
@@ -345,8 +349,7 @@ theorem C04_periodic_object_partial (o : Obj K) (dir : ℕ) (hdir : dir < o.base
     (hax : dir < o.cps.shape.length) (hv : (o.basis dir).Valid) (k : ℕ)
     (hk : (o.basis dir).periodic = (k : Int))
     (hguard : (o.basis dir).order + k ≤ (o.basis dir).numFunctions)
-    (hshape : o.cps.shape.getD dir 0 = (o.basis dir).numFunctions) (xs : List K)
-    (hxs : ∀ x ∈ xs, wrapVal (o.basis dir) x ≠ (o.basis dir).stop) :
+    (hshape : o.cps.shape.getD dir 0 = (o.basis dir).numFunctions) (xs : List K) :
     ∃ o' C, o.insertKnots xs dir = .ok o' ∧
       PerRefines (o.basis dir) (o'.basis dir) C xs.length ∧
       (∀ d, d ≠ dir → o'.basis d = o.basis d) ∧ o'.rational = o.rational ∧
@@ -360,14 +363,14 @@ theorem C04_periodic_object_partial (o : Obj K) (dir : ℕ) (hdir : dir < o.base
           = wsum s (o.basis dir).kn ((o.basis dir).order - 1) (o.basis dir).nAll
             (o.basis dir).numFunctions (fibre o dir a i) d t := by
   obtain ⟨o', C, h1, h2, h3, h4, h5, _, _, h8, _⟩ :=
-    insertKnots_fibres_periodic o dir hdir hax hv k hk hguard hshape xs hxs
+    insertKnots_fibres_periodic_any o dir hdir hax hv k hk hguard hshape xs
   refine ⟨o', C, h1, h2, h3, h4, h5, h8, fun a i ha hi s d t ht => ?_⟩
   have hn := numFunctions_pos hv
   rw [wsum_congr s _ _ _ _ (by omega) _ _ d t (fun r hr => h8 a i r ha hi hr)]
   exact h2.same (fibre o dir a i) s d t ht
 
 /-- **Periodic curves and the real evaluator.**  Curve over a valid periodic basis `b1` with
-`n ≥ p+k`, rational or not; reals `xs` whose wrapped images are not the domain end; `tol > 0`
+`n ≥ p+k`, rational or not; any reals `xs`; `tol > 0`
 (`state.knot_tolerance`); parameters `us` admissible for `b1` (`Basis.Admissible`: every tolerance
 comparison exact at `u` and at the wrapped point):
 `insert_knot(xs)` succeeds, the new basis is valid with `xs.length` more functions, and
@@ -380,13 +383,13 @@ theorem C04_periodic_evaluate_curve_partial {o : Obj K} {b1 : Basis K} (hb : o.b
     (hv1 : b1.Valid) (k : ℕ) (hk : b1.periodic = (k : Int))
     (hguard : b1.order + k ≤ b1.numFunctions) {nc : ℕ}
     (hs : o.cps.shape = [b1.numFunctions, nc]) (hnc : o.rational = true → 1 ≤ nc)
-    (xs : List K) (hxs : ∀ x ∈ xs, wrapVal b1 x ≠ b1.stop) {tol : K} (htol : 0 < tol)
+    (xs : List K) {tol : K} (htol : 0 < tol)
     {us : List K} (hus : ∀ u ∈ us, b1.Admissible tol u) :
     ∃ o', o.insertKnots xs 0 = .ok o' ∧ (o'.basis 0).Valid ∧
       (o'.basis 0).numFunctions = b1.numFunctions + xs.length ∧
       ((∀ u ∈ us, (o'.basis 0).Admissible tol u) →
         o'.evaluate tol [us] true = o.evaluate tol [us] true) :=
-  evaluate_unchanged_periodic_curve hb hv1 k hk hguard hs hnc xs hxs htol hus
+  evaluate_unchanged_periodic_curve hb hv1 k hk hguard hs hnc xs htol hus
 
 /-! ## Non-vacuity: the hypotheses are satisfiable (concrete instances at `ℚ`) -/
 
@@ -517,19 +520,13 @@ example : ∃ o', C04_exCurve.refineDir (1/10000000000) 2 0 = .ok o' := by
 
 /-- C04_periodic_partial: a value two... one period above the domain (`7/2 ↦ 1/2`), and the seam. -/
 example : ∃ b' C, C04_exPer.insertKnot (7/2) = .ok (b', C) ∧ b'.Valid := by
-  have hne : wrapVal C04_exPer (7/2) ≠ C04_exPer.stop :=
-    ne_of_lt ((wrapVal_mem C04_exPer C04_exPer_valid.start_lt_stop (7/2)).2.2
-      (by rw [C04_exPer_stop]; norm_num))
   obtain ⟨_, _, _, b', C, h1, h2, _⟩ :=
-    C04_periodic_partial C04_exPer C04_exPer_valid 0 rfl (by decide) (7/2) hne
+    C04_periodic_partial C04_exPer C04_exPer_valid 0 rfl (by decide) (7/2)
   exact ⟨b', C, h1, h2⟩
 
 example : ∃ b' C, C04_exPer.insertKnot 0 = .ok (b', C) ∧ b'.Valid ∧ b'.numFunctions = 5 := by
-  have hne : wrapVal C04_exPer 0 ≠ C04_exPer.stop :=
-    ne_of_lt ((wrapVal_mem C04_exPer C04_exPer_valid.start_lt_stop 0).2.2
-      (by rw [C04_exPer_stop]; norm_num))
   obtain ⟨_, _, _, b', C, h1, h2, _, _, _, h6, _⟩ :=
-    C04_periodic_partial C04_exPer C04_exPer_valid 0 rfl (by decide) 0 hne
+    C04_periodic_partial C04_exPer C04_exPer_valid 0 rfl (by decide) 0
   exact ⟨b', C, h1, h2, h6⟩
 
 /-- C04_graded: `geometric_refine(curve, 1/2, 3)`. -/
@@ -550,11 +547,8 @@ left after inserting `7/2` (wrapped to `1/2`). -/
 example : ∃ b' C, C04_exPer.insertKnot (7/2) = .ok (b', C) ∧
     wsum .left b'.kn 2 (C04_exPer.nAll + 1) 5 (mulVec C 4 (fun i => (i : ℚ) ^ 2)) 1 (5/2)
       = wsum .left C04_exPer.kn 2 C04_exPer.nAll 4 (fun i => (i : ℚ) ^ 2) 1 (5/2) := by
-  have hne : wrapVal C04_exPer (7/2) ≠ C04_exPer.stop :=
-    ne_of_lt ((wrapVal_mem C04_exPer C04_exPer_valid.start_lt_stop (7/2)).2.2
-      (by rw [C04_exPer_stop]; norm_num))
   obtain ⟨_, _, _, b', C, h1, _, _, _, _, _, _, _, _, _, hgeo⟩ :=
-    C04_periodic_partial C04_exPer C04_exPer_valid 0 rfl (by decide) (7/2) hne
+    C04_periodic_partial C04_exPer C04_exPer_valid 0 rfl (by decide) (7/2)
   refine ⟨b', C, h1, hgeo _ .left 1 (5/2) ?_⟩
   rw [C04_exPer_stop]
   change C04_exPer.kn 2 < 5/2 ∧ (5/2 : ℚ) ≤ 3
@@ -576,22 +570,12 @@ example : wsum .right (repSeq (insertSeq C04_exPer.kn 3 (1/2)) 3 4 (3 + 0)) 2 (4
 /-- C04_periodic_sequence_partial / C04_periodic_object_partial: seam, interior, a value outside. -/
 example : ∃ b' C, insertMany C04_exPer (Mat.identity C04_exPer.numFunctions) [0, 1/2, -5/2]
     = .ok (b', C) ∧ PerRefines C04_exPer b' C 3 := by
-  refine C04_periodic_sequence_partial C04_exPer C04_exPer_valid 0 rfl (by decide) [0, 1/2, -5/2] ?_
-  intro x hx
-  refine ne_of_lt ((wrapVal_mem C04_exPer C04_exPer_valid.start_lt_stop x).2.2 ?_)
-  rw [C04_exPer_stop]
-  simp only [List.mem_cons, List.not_mem_nil, or_false] at hx
-  rcases hx with rfl | rfl | rfl <;> norm_num
+  exact C04_periodic_sequence_partial C04_exPer C04_exPer_valid 0 rfl (by decide) [0, 1/2, -5/2]
 
-example : ∃ o', C04_exPerCurve.insertKnots [1/2, 2] 0 = .ok o' ∧ o'.cps.shape = [6, 2] := by
+/-- the domain end `3` included (seam multiplicity 2: `IndexError` before the end clamp) -/
+example : ∃ o', C04_exPerCurve.insertKnots [1/2, 3] 0 = .ok o' ∧ o'.cps.shape = [6, 2] := by
   obtain ⟨o', C, h1, _, _, _, h5, _⟩ := C04_periodic_object_partial C04_exPerCurve 0 (by decide)
-    (by decide) C04_exPer_valid 0 rfl (by decide) (by decide) [1/2, 2]
-    (by
-      intro x hx
-      refine ne_of_lt ((wrapVal_mem C04_exPer C04_exPer_valid.start_lt_stop x).2.2 ?_)
-      rw [C04_exPer_stop]
-      simp only [List.mem_cons, List.not_mem_nil, or_false] at hx
-      rcases hx with rfl | rfl <;> norm_num)
+    (by decide) C04_exPer_valid 0 rfl (by decide) (by decide) [1/2, 3]
   exact ⟨o', h1, h5⟩
 
 /-- C04_periodic_evaluate_curve_partial. -/
@@ -606,12 +590,6 @@ example : ∃ o', C04_exPerCurve.insertKnots [1/2, -5/2] 0 = .ok o' ∧
       (by rw [C04_exPer_stop]; norm_num)
   obtain ⟨o', h1, _, h3, _⟩ := C04_periodic_evaluate_curve_partial (o := C04_exPerCurve)
     (b1 := C04_exPer) rfl C04_exPer_valid 0 rfl (by decide) (nc := 2) rfl (by decide) [1/2, -5/2]
-    (by
-      intro x hx
-      refine ne_of_lt ((wrapVal_mem C04_exPer C04_exPer_valid.start_lt_stop x).2.2 ?_)
-      rw [C04_exPer_stop]
-      simp only [List.mem_cons, List.not_mem_nil, or_false] at hx
-      rcases hx with rfl | rfl <;> norm_num)
     (tol := 1/1000) (by norm_num) (us := [1/4])
     (by
       intro u hu
